@@ -178,7 +178,18 @@ void gen_samples(const psig_t *ps, uint64_t vseed, int64_t sid, uint32_t n, uint
         uint64_t v = 0;
         int pat = ps->pattern;
         int cls = 3;
-        if (pat == PAT_BLOCKCONST) cls = (int) (hb % 5);
+        if (pat == PAT_BLOCKCONST) cls = (int) (hb % 6);
+        /* class 5 (sub-byte types): every BYTE of the block is the same but the samples inside a byte differ
+         * (u4: a,b,a,b,...; u1: an 8-sample pattern) - constant for a detector that compares bytes with a wrong reference */
+        int byteper = 0; uint8_t bp = 0;
+        if (pat == PAT_BLOCKCONST && cls == 5) {
+            if (bits < 8) {
+                static const uint8_t pb4[] = {0x10, 0x31, 0x73, 0xf5, 0x21, 0x8c, 0x5a}, pb1[] = {0x55, 0xaa, 0x0f, 0x01, 0x80, 0xfe, 0x33};
+                bp = bits == 4 ? pb4[(hb >> 16) % 7] : pb1[(hb >> 16) % 7];
+                byteper = 1;
+            }
+            cls = 3;
+        }
         if (pat == PAT_LONGZERO) {
             int64_t run = (32768LL * 8 / bits) / blk + 2 + (int64_t) (ps->pseed % 3);
             pat = PAT_BLOCKCONST;
@@ -263,6 +274,10 @@ void gen_samples(const psig_t *ps, uint64_t vseed, int64_t sid, uint32_t n, uint
             uint64_t bot = t->kind == 1 ? (1ULL << (bits - 1)) : 0;                 /* min (two's complement pattern) */
             if (bits == 64) { top = t->kind == 1 ? 0x7fffffffffffffffULL : ~0ULL; bot = t->kind == 1 ? 0x8000000000000000ULL : 0; }
             v = ((hv >> 9) & 1) ? top : bot;
+        }
+        if (byteper) {
+            int64_t pos = rel - bidx * blk;
+            v = bits == 4 ? ((pos & 1) ? (uint64_t) (bp >> 4) : (uint64_t) (bp & 0x0f)) : (uint64_t) ((bp >> (pos & 7)) & 1);
         }
         put_bits(out, (int64_t) i * bits, bits, v);
     }
